@@ -119,6 +119,9 @@ def tlc(ctx, module, cfg, out_name, workers=8, simulate=None, extra=(), env=None
             m = TLC_STATS.match(line)
             if m:
                 res["generated"], res["distinct"] = int(m.group(1)), int(m.group(2))
+            m3 = re.match(r"^The number of states generated: (\d+)", line)
+            if m3:
+                res["generated"] = int(m3.group(1))
             m = COV_LINE.match(line)
             if m:
                 k = m.group(1)
